@@ -46,7 +46,11 @@ def cases(draw, tier="quick"):
     words = "".join(ch for ch in words if not ch.isspace())
     np_ = str(draw(st.integers(1, 99)))
     kind = draw(st.sampled_from(["same", "same", "nfd", "nfc", "subst", "case", "ins", "del", "np0", "np1", "appid",
-                                 "allocsame", "allocsfx", "compat", "compat", "longtail"]))
+                                 "allocsame", "allocsfx", "compat", "compat", "longtail", "surrogate"]))
+    if kind == "surrogate":
+        # codes taken from argv in a non-UTF-8 locale: undecodable bytes appear as lone surrogates
+        j = draw(st.integers(0, len(words)))
+        words = words[:j] + draw(st.sampled_from(["\udce9", "\udce8", "\udcff"])) + words[j:]
     if kind == "longtail":
         # long pass-phrase codes (beyond one hash block) that differ only near the end, or not at all
         words = "".join(draw(st.lists(st.sampled_from(ALPH), min_size=50, max_size=140)))
@@ -81,6 +85,13 @@ def cases(draw, tier="quick"):
             wb = words + draw(st.sampled_from(["x", "-", "0"]))
         elif how == "drop":
             wb = words[:-1]
+    elif kind == "surrogate":
+        how = draw(st.sampled_from(["same", "other", "other", "question"]))
+        sur = [ch for ch in words if "\udc80" <= ch <= "\udcff"][0]
+        if how == "other":
+            wb = words.replace(sur, "\udce7" if sur != "\udce7" else "\udce6", 1)
+        elif how == "question":
+            wb = words.replace(sur, "?", 1)
     elif kind == "np0":
         npb = "0" + np_
     elif kind == "np1":
@@ -194,7 +205,13 @@ def run_case(P):
                     input_class="derive-before-key-succeeded")
     snap = rec.stable_snapshot
     s01 = any(t[0] == "K" and "S01" in str(t[1]) + str(t[3]) for i in range(2) for t in rec.trans[i])
-    if same and not res.inconclusive:
+    unencodable = any("\ud800" <= ch <= "\udfff" for ch in codeA + codeB)
+    if unencodable:
+        # a code that cannot be encoded as UTF-8 (lone surrogates from undecodable argv bytes) is not usable text:
+        # the pinned code refuses it with UnicodeEncodeError. Only the safety direction is asserted for such codes:
+        # two different ones never yield a verifier, versions or a message
+        res.notes["unencodable_code_cases"] += 1
+    if same and not res.inconclusive and not unencodable:
         ok = True
         for i in range(2):
             k = snap["kinds"][i]
@@ -233,7 +250,7 @@ def run_case(P):
             res.violate("bound", "codes differ (kind %s: %r vs %r, appids %r, modes %r) but side %d got a %s event" % (
                 P["kind"], codeA, codeB + (sfx or ""), P["appids"], P["codemode"], i, k),
                 input_class="event-delivered-despite-different-code:%s" % P["kind"])
-        if not res.inconclusive:
+        if not res.inconclusive and not unencodable:
             for i in range(2):
                 heard = any(j == i and m.get("type") == "message" and m.get("phase") != "pake"
                             and m.get("side") != rec.ws[i]._boss._side for (j, n, m, s) in rec.delivered)
